@@ -292,8 +292,13 @@ class ApiMergeStoreHandler(NbdimeHandler, APIHandler):
         # Somehow store unsolved conflicts?
         # conflicts = body['conflicts']
 
+        # Serialize before opening the file, so that an invalid notebook
+        # does not truncate the existing output file
+        content = nbformat.writes(merged_nb)
         with io.open(path, 'w', encoding='utf8') as f:
-            nbformat.write(merged_nb, f)
+            f.write(content)
+            if not content.endswith(u'\n'):
+                f.write(u'\n')
         self.finish()
 
 
